@@ -6,24 +6,50 @@
     XPath query evaluated on an edited document selects, orders and de-duplicates nodes exactly as
     the same query does on a fresh parse of that document's serialization."
 
-    First sentence: proved below for the model of the repaired code ([order_inv_reachable]).
+    First sentence: proved below for the model of the repaired code ([C14_order_inv_reachable]).
     [Walk s n l] (Proofs/DomOrder.v) is the specification of the walk: a node, then the walks of
     its namespace declarations, of its other attributes (an attribute is followed by its value
     items), then of its children.  [key s x] is what [HasContext::order] returns for [x].
 
-    Second sentence: NOT proved in this development -- it needs the XPath evaluator model (C05,
-    [eval_refines_spec] over arbitrary stores) and the print/parse round trip of edited stores
-    (C15).  It is checked on the implementation by the [Q] operations of checks/C14.py (node-set
-    queries on the edited document against a re-parse of its serialisation, compared as lists of
-    pre-order ranks).  What this file contributes to it is the premise that evaluator needs: after
-    any history, sorting and de-duplicating by key is sorting and de-duplicating by position in
-    the pre-order walk ([oi_increasing], [oi_nonzero]), exactly as on a fresh parse. *)
-From Coq Require Import List NArith Bool.
-From XmlRs Require Import Base.CPred Model.Store Model.StoreCheck Model.DomOps
-  Proofs.DomTree Proofs.DomOpsInv Proofs.DomOrder Proofs.DomOrderInv Proofs.DomCheck Proofs.DomExample Proofs.DomC14.
+    Second sentence: the store model (Model/Store.v) and the evaluator's document table
+    (Model/XDoc.v) are tied by [xdoc_of_store F merged s] (Model/StoreView.v): the table the
+    evaluator sees for the document held in store [s], built as the harness builds it from the real
+    DOM (node, new namespace nodes, attributes, children; every field an observation computed with
+    the functions of Model/Store.v; string facts the store does not hold -- normalised attribute
+    values, replacement texts -- are the parameter [F]; [merged] selects the DOM view).  The view
+    reproduces tables dumped from the real code ([C14_view_is_real_dump]).  Proved, for every
+    document of every world reachable by any history that still has a document element:
+    - the table satisfies [DocInv] (tree + keys non-zero and strictly increasing along the table),
+      [SpecShape], and -- without a document type -- [ParentsOk]: the hypotheses of the C07 / C05
+      theorems ([C14_bridge_reachable]); the condition on the document element is necessary
+      ([C14_bridge_needs_document_element]: [DocInv] asks the root for an element child);
+    - every node-set any expression without the namespace axis returns on the edited document is
+      duplicate-free and in document order by position in the table
+      ([C14_edited_nodeset_canonical]), and position in the table is position in the specified
+      walk of the store ([C14_table_order_is_walk_order]);
+    - a query of the fragment of C05 that is proved (one predicate-free location path) has the
+      value XPath 1.0 prescribes for the TREE ([C14_edited_path_query_refines_partial]); that
+      value does not read the order keys, so two stores whose tables are equal up to ids, keys and
+      parent pointers -- an edited document and the fresh parse of its serialisation -- give the
+      same rows in the same order ([C14_query_depends_on_tree_only_partial]).
+    NOT proved here (hypotheses of the last theorem): that a fresh parse of the serialisation
+    yields the same tree (C15 / C04: [same_tree] of the two tables is assumed), that the dom's
+    expanded names are those of Namespaces in XML ([NamesOk], C10; decidable), and the rest of C05
+    (predicates, the other axes, functions).  Those stay tested by the [Q] operations of
+    checks/C14.py (queries on the edited document against a re-parse, as pre-order ranks). *)
+From Coq Require Import List NArith Bool Sorting.Sorted.
+From XmlRs Require Import Base.CPred.
+From XmlRs Require Import Model.XPathAst Model.XDoc Model.XPathEval Spec.XPath10
+  Proofs.XPathNav Proofs.XPathAstPred Proofs.XPathCanon Proofs.XPathRefine Proofs.XPathRefinePaths
+  Proofs.XPathTreeOnly Proofs.XPathExamples.
+From XmlRs Require Import Model.Store Model.StoreCheck Model.StoreView Model.DomOps
+  Proofs.DomTree Proofs.DomOpsInv Proofs.DomOrder Proofs.DomOrderInv Proofs.DomCheck Proofs.DomExample Proofs.DomC14
+  Proofs.StoreViewBase Proofs.StoreViewWalk Proofs.StoreXDoc Proofs.StoreXDocShape Proofs.StoreXDocReach
+  Proofs.StoreXDocExample.
 Import ListNotations.
 Open Scope N_scope.
 
+(** ** first sentence *)
 Theorem C14_order_inv_of_tree : forall s, TreeInv s -> OrderOK s -> OrderInv s.
 Proof. exact order_inv_of_tree. Qed.
 
@@ -38,9 +64,9 @@ Theorem C14_keys_after_any_history :
   forall init ops k s, WGood init -> doc_at (run init ops) k = Some s ->
     Walk s (sroot s) (preorder s)
     /\ (forall x, In x (preorder s) <-> attached s x)
-    /\ (forall x, attached s x -> key s x <> 0)
-    /\ (forall l1 x l2 y l3, preorder s = l1 ++ x :: l2 ++ y :: l3 -> key s x < key s y)
-    /\ (forall x, ~ attached s x -> key s x = 0).
+    /\ (forall x, attached s x -> Store.key s x <> 0)
+    /\ (forall l1 x l2 y l3, preorder s = l1 ++ x :: l2 ++ y :: l3 -> Store.key s x < Store.key s y)
+    /\ (forall x, ~ attached s x -> Store.key s x = 0).
 Proof. exact keys_after_any_history. Qed.
 
 Theorem C14_walk_unique : forall s n l1 l2, Walk s n l1 -> Walk s n l2 -> l1 = l2.
@@ -51,3 +77,198 @@ Print Assumptions C14_good_step.
 Print Assumptions C14_order_inv_reachable.
 Print Assumptions C14_keys_after_any_history.
 Print Assumptions C14_walk_unique.
+
+(** ** second sentence: the bridge to the evaluator's table *)
+
+(** one store: tree invariant (C12) + order invariant (first sentence) + a document element give
+    the document invariant of the evaluator, for all string facts and both DOM views *)
+Theorem C14_bridge_docinv :
+  forall (F : sfacts) (merged : bool) (s : store),
+    TreeInv s -> OrderInv s -> doc_element s <> None -> DocInv (xdoc_of_store F merged s).
+Proof. exact bridge_docinv. Qed.
+
+(** [SpecShape] includes [sh_order]: the rows the specification's own pre-order walk of the table
+    visits are in increasing position -- the table IS in the document order of its tree *)
+Theorem C14_bridge_shape :
+  forall (F : sfacts) (merged : bool) (s : store),
+    TreeInv s -> doc_element s <> None -> SpecShape (xdoc_of_store F merged s).
+Proof. exact bridge_shape. Qed.
+
+(** of [NamesOk] (C10) only the clause on elements and attributes remains a hypothesis *)
+Theorem C14_bridge_names :
+  forall (F : sfacts) (merged : bool) (s : store),
+    ElemNamesOk (xdoc_of_store F merged s) -> NamesOk (xdoc_of_store F merged s).
+Proof. exact bridge_names. Qed.
+
+Theorem C14_bridge_parents :
+  forall (F : sfacts) (merged : bool) (s : store),
+    TreeInv s -> doc_element s <> None -> doc_decl s = None -> ParentsOk (xdoc_of_store F merged s).
+Proof. exact bridge_parents. Qed.
+
+(** the document element is needed: a document whose root element was removed (a reachable state)
+    has no table satisfying [DocInv] *)
+Theorem C14_bridge_needs_document_element :
+  forall (F : sfacts) (merged : bool) (s : store),
+    TreeInv s -> DocInv (xdoc_of_store F merged s) -> doc_element s <> None.
+Proof. exact bridge_needs_document_element. Qed.
+
+(** every document of every reachable world *)
+Theorem C14_bridge_reachable :
+  forall (F : sfacts) (merged : bool) (init : world) (ops : list op) (k : N) (s : store),
+    WGood init -> doc_at (run init ops) k = Some s -> doc_element s <> None ->
+    DocInv (xdoc_of_store F merged s) /\ SpecShape (xdoc_of_store F merged s) /\
+    (doc_decl s = None -> ParentsOk (xdoc_of_store F merged s)).
+Proof. exact bridge_reachable. Qed.
+
+(** C07 on the edited document: whatever axes, unions, filters and predicates an expression
+    without the namespace axis is made of, every node-set it returns from any good context node
+    lists rows in document order by position in the table, each at most once *)
+Theorem C14_edited_nodeset_canonical :
+  forall (F : sfacts) (merged : bool) (init : world) (ops : list op) (k : N) (s : store),
+    WGood init -> doc_at (run init ops) k = Some s -> doc_element s <> None ->
+    forall (c : ctx) (e : expr) (n : node) (l : list node) (c' : ctx),
+      no_ns_axis e = true -> good (xdoc_of_store F merged s) n ->
+      eval_expr (xdoc_of_store F merged s) e n c = (XDoc.Ok (XNodes l), c') ->
+      StronglySorted (doc_lt (xdoc_of_store F merged s)) l /\ NoDup l /\
+      Forall (good (xdoc_of_store F merged s)) l.
+Proof. exact edited_nodeset_canonical. Qed.
+
+Theorem C14_edited_query_canonical :
+  forall (F : sfacts) (merged : bool) (init : world) (ops : list op) (k : N) (s : store),
+    WGood init -> doc_at (run init ops) k = Some s -> doc_element s <> None ->
+    forall (c : ctx) (e : expr) (l : list node) (c' : ctx),
+      no_ns_axis e = true -> query (xdoc_of_store F merged s) e c = (XDoc.Ok (XNodes l), c') ->
+      StronglySorted (doc_lt (xdoc_of_store F merged s)) l /\ NoDup l /\
+      Forall (good (xdoc_of_store F merged s)) l.
+Proof. exact edited_query_canonical. Qed.
+
+(** position in the table is position in the tree: the rows of a list in table order, read as
+    nodes of the store, are a subsequence of the specified walk [preorder s] ([Walk]) *)
+Theorem C14_table_order_is_walk_order :
+  forall (F : sfacts) (merged : bool) (s : store) (l : list node),
+    StronglySorted (doc_lt (xdoc_of_store F merged s)) l -> Forall (valid (xdoc_of_store F merged s)) l ->
+    Sub (nodes_of (keys_at F merged s l)) (preorder s).
+Proof. exact table_order_is_walk_order. Qed.
+
+Theorem C14_view_rows_follow_walk :
+  forall (F : sfacts) (merged : bool) (s : store), Sub (nodes_of (vrows F merged s)) (preorder s).
+Proof. exact rows_sub_preorder. Qed.
+
+(** C05 on the edited document, proved fragment: a query that is one predicate-free location path
+    (C05_rung1_paths_partial) has the value XPath 1.0 prescribes for the table *)
+Theorem C14_edited_path_query_refines_partial :
+  forall (F : sfacts) (merged : bool) (init : world) (ops : list op) (k : N) (s : store),
+    WGood init -> doc_at (run init ops) k = Some s ->
+    doc_element s <> None -> doc_decl s = None -> NamesOk (xdoc_of_store F merged s) ->
+    forall (ns : list (option str * str)), ns_lookup ns None = None ->
+    forall (p : path_expr) (c : ctx) (pos size : N), c_ns c = ns -> simple_path ns p ->
+    exists lm : list node,
+      query (xdoc_of_store F merged s) (path_query p) c = (XDoc.Ok (XNodes lm), c) /\
+      spec_query (xdoc_of_store F merged s) ns pos size (path_query p) = Some (SNodes (map Row lm)).
+Proof. exact edited_path_query_refines. Qed.
+
+(** the specification does not read ids, order keys and parent pointers: ALL expressions *)
+Theorem C14_spec_query_tree_only :
+  forall (d1 d2 : xdoc), same_tree d1 d2 ->
+  forall (ns : bindings) (pos size : N) (e : expr), spec_query d1 ns pos size e = spec_query d2 ns pos size e.
+Proof. exact spec_query_tree_only. Qed.
+
+(** FULL STATEMENT of the second sentence (NOT proved as a whole):
+      forall init ops k s1, WGood init -> doc_at (run init ops) k = Some s1 ->
+      forall s2, s2 = the store a parse of [show_doc s1] builds ->
+      forall e c, value of [query (table of s1) e c] = value of [query (table of s2) e c]
+      (node-sets compared as lists of table positions).
+    Proved part: for the fragment of C05 that is proved, with the two facts that belong to other
+    properties as hypotheses -- the fresh parse yields the same tree ([same_tree] of the tables:
+    C15 / C04) and satisfies the invariants ([TreeInv], [OrderInv]: what [WGood] of an initial
+    world gives), the dom's names are those of Namespaces in XML ([NamesOk]: C10) -- and for
+    documents with a document element and without a document type: the edited document and the
+    fresh parse give the same rows in the same order, which are the rows XPath 1.0 prescribes. *)
+Theorem C14_query_depends_on_tree_only_partial :
+  forall (F1 F2 : sfacts) (merged : bool) (init : world) (ops : list op) (k : N) (s1 s2 : store),
+    WGood init -> doc_at (run init ops) k = Some s1 ->
+    TreeInv s2 -> OrderInv s2 ->
+    doc_element s1 <> None -> doc_decl s1 = None -> doc_element s2 <> None -> doc_decl s2 = None ->
+    NamesOk (xdoc_of_store F1 merged s1) ->
+    same_tree (xdoc_of_store F1 merged s1) (xdoc_of_store F2 merged s2) ->
+    forall (ns : list (option str * str)), ns_lookup ns None = None ->
+    forall (p : path_expr) (c1 c2 : ctx), c_ns c1 = ns -> c_ns c2 = ns -> simple_path ns p ->
+    exists l : list node,
+      query (xdoc_of_store F1 merged s1) (path_query p) c1 = (XDoc.Ok (XNodes l), c1) /\
+      query (xdoc_of_store F2 merged s2) (path_query p) c2 = (XDoc.Ok (XNodes l), c2) /\
+      spec_query (xdoc_of_store F1 merged s1) ns 0 0 (path_query p) = Some (SNodes (map Row l)).
+Proof. exact query_depends_on_tree_only. Qed.
+
+(** the same for two arbitrary tables *)
+Theorem C14_same_tree_same_paths_partial :
+  forall (d1 d2 : xdoc),
+    DocInv d1 -> SpecShape d1 -> ParentsOk d1 -> DocInv d2 -> SpecShape d2 -> ParentsOk d2 ->
+    NamesOk d1 -> same_tree d1 d2 ->
+    forall (ns : list (option str * str)), ns_lookup ns None = None ->
+    forall (p : path_expr) (c1 c2 : ctx), c_ns c1 = ns -> c_ns c2 = ns -> simple_path ns p ->
+    exists l : list node,
+      query d1 (path_query p) c1 = (XDoc.Ok (XNodes l), c1) /\
+      query d2 (path_query p) c2 = (XDoc.Ok (XNodes l), c2) /\
+      spec_query d1 ns 0 0 (path_query p) = Some (SNodes (map Row l)).
+Proof. exact same_tree_same_paths. Qed.
+
+(** ** the view is the table of the real code; the hypotheses are satisfiable *)
+
+(** [path_doc], [pi_doc], [ns_doc], [ex_doc] of Proofs/XPathExamples.v are printed from the harness
+    dump of the real dom; the view of the corresponding stores is that table, field by field *)
+Example C14_view_is_real_dump :
+  xdoc_of_store (facts_of path_store) true path_store = path_doc /\
+  xdoc_of_store (facts_of pi_store) true pi_store = pi_doc /\
+  xdoc_of_store (facts_of ns_store) true ns_store = ns_doc /\
+  xdoc_of_store (facts_of ex_store') true ex_store' = ex_doc.
+Proof.
+  split; [exact view_is_real_dump_path|]. split; [exact view_is_real_dump_pi|].
+  split; [exact view_is_real_dump_ns | exact view_is_real_dump_ex].
+Qed.
+
+(** [br_store]: <r><a x="1">t</a><b/></r> after a refused call, a move of the subtree of a under
+    b, a creation and an insertion -- <r><e /><b><a x="1">t</a></b></r>, ids along the walk
+    1 2 8 7 3 4 5 6; [rp_store]: the store of a fresh parse of that text *)
+Example C14_example_hypotheses :
+  WGood ex_world /\ doc_at (run ex_world br_ops) 0 = Some br_store /\
+  doc_element br_store <> None /\ doc_decl br_store = None /\
+  TreeInv rp_store /\ OrderInv rp_store /\ doc_element rp_store <> None /\ doc_decl rp_store = None /\
+  NamesOk br_view /\ same_tree br_view rp_view.
+Proof. exact br_hypotheses. Qed.
+
+Example C14_example_ids_and_keys :
+  (preorder br_store, map (Store.key br_store) (preorder br_store)) = ([1;2;8;7;3;4;5;6], [1;2;3;4;5;6;7;8]) /\
+  (map n_id br_view, map n_key br_view) = ([1;2;0;8;0;7;0;3;0;4;6], [1;2;0;3;0;4;0;5;0;6;8]) /\
+  (map n_id rp_view, map n_key rp_view) = ([1;2;0;3;0;4;0;5;0;6;8], [1;2;0;3;0;4;0;5;0;6;8]).
+Proof. split; [exact br_walk_and_keys|]. split; [exact br_view_ids_keys | exact rp_view_ids_keys]. Qed.
+
+(** //a/@x , /r/b/a/text() , //text()/ancestor::star on the edited document and on the fresh parse *)
+Example C14_example_queries :
+  simple_path [] p_attr /\ simple_path [] p_text /\ simple_path [] p_anc /\
+  fst (query br_view (path_query p_attr) ctx_default) = XDoc.Ok (XNodes [9]) /\
+  fst (query br_view (path_query p_text) ctx_default) = XDoc.Ok (XNodes [10]) /\
+  fst (query br_view (path_query p_anc) ctx_default) = XDoc.Ok (XNodes [1; 5; 7]) /\
+  fst (query rp_view (path_query p_attr) ctx_default) = XDoc.Ok (XNodes [9]) /\
+  fst (query rp_view (path_query p_text) ctx_default) = XDoc.Ok (XNodes [10]) /\
+  fst (query rp_view (path_query p_anc) ctx_default) = XDoc.Ok (XNodes [1; 5; 7]).
+Proof.
+  destruct br_paths_simple as [H1 [H2 H3]]. split; [exact H1|]. split; [exact H2|]. split; [exact H3|].
+  exact br_query_values.
+Qed.
+
+Print Assumptions C14_bridge_docinv.
+Print Assumptions C14_bridge_shape.
+Print Assumptions C14_bridge_names.
+Print Assumptions C14_bridge_parents.
+Print Assumptions C14_bridge_needs_document_element.
+Print Assumptions C14_bridge_reachable.
+Print Assumptions C14_edited_nodeset_canonical.
+Print Assumptions C14_edited_query_canonical.
+Print Assumptions C14_table_order_is_walk_order.
+Print Assumptions C14_view_rows_follow_walk.
+Print Assumptions C14_edited_path_query_refines_partial.
+Print Assumptions C14_spec_query_tree_only.
+Print Assumptions C14_query_depends_on_tree_only_partial.
+Print Assumptions C14_same_tree_same_paths_partial.
+Print Assumptions C14_view_is_real_dump.
+Print Assumptions C14_example_hypotheses.
